@@ -4,8 +4,9 @@ set -u
 patch=$(realpath "$1"); shift
 cd /repo || exit 3
 if ! git diff --quiet; then echo "/repo has uncommitted changes"; exit 3; fi
-git apply "$patch" || { echo "patch does not apply"; exit 3; }
-trap 'git -C /repo checkout -- . ; git -C /repo clean -fdq' EXIT
+trap "git -C /repo reset -q --hard HEAD; git -C /repo clean -fdq" EXIT
+git apply "$patch" 2>/dev/null || git apply -3 "$patch" || { echo "patch does not apply"; exit 3; }
+git reset -q
 cd /verif
 for c in "$@"; do
   timeout 900 bin/verif check "$c" --tier ${TIER:-quick} 2>&1 | grep -E "^(VIOLATION|KNOWN|C[0-9]+ |violation|INFRA|verif:)" | cut -c1-400 | head -${LINES_MAX:-12}
